@@ -22,40 +22,41 @@ import (
 // batch), decided against an independent schnorrkel protocol model.
 
 var (
-	c12keyRoute    [6]int
-	c12keyGenErr   = core.RegCounter("c12.key_generation_with_injected_reader_error")
-	c12unclamped   = core.RegCounter("c12.ed25519_bytes_not_clamped_rejected")
-	c12srcBytes    = core.RegCounter("c12.transcript_from_bytes")
-	c12srcHash     = core.RegCounter("c12.transcript_from_hash")
-	c12srcXOF      = core.RegCounter("c12.transcript_from_xof")
-	c12xofErr      = core.RegCounter("c12.xof_read_error_surfaced_as_documented_panic")
-	c12hashTwin    = core.RegCounter("c12.caller_hash_compared_with_untouched_twin")
-	c12signs       = core.RegCounter("c12.signatures_compared_with_model")
-	c12signErr     = core.RegCounter("c12.sign_with_injected_reader_error")
-	c12verifyOK    = core.RegCounter("c12.honest_tuples_verified")
-	c12wire        = core.RegCounter("c12.wire_alterations")
-	c12alt         = map[string]int{}
-	c12decRej      = core.RegCounter("c12.altered_artifact_rejected_by_decoder")
-	c12verRej      = core.RegCounter("c12.altered_tuple_rejected_by_verify")
-	c12remarshal   = core.RegCounter("c12.accepted_artifacts_remarshalled")
-	c12batches     = core.RegCounter("c12.batches_verified")
-	c12batchEnt    = core.RegCounter("c12.batch_entries")
-	c12batchMixed  = core.RegCounter("c12.batches_mixing_valid_and_invalid")
-	c12batchBig    = core.RegCounter("c12.batches_with_95_or_more_entries")
-	c12grown       = core.RegCounter("c12.batches_grown_after_a_verdict_and_finished_again")
-	c12again       = core.RegCounter("c12.batches_finished_again_without_reset")
-	c12batchReset  = core.RegCounter("c12.batch_verifier_reused_after_reset")
-	c12batchEmpty  = core.RegCounter("c12.empty_batches")
-	c12batchOnly   = core.RegCounter("c12.verify_batch_only_calls")
-	c12batchPanic  = core.RegCounter("c12.batch_entropy_error_surfaced_as_documented_panic")
-	c12cancel      = core.RegCounter("c12.cancelling_pairs_in_batch")
-	c12kpUnchanged = core.RegCounter("c12.keypair_marshal_unchanged_after_signing")
-	c12modelDec    = core.RegCounter("c12.model_verify_decisions_compared")
-	c12wrongLen    = core.RegCounter("c12.wrong_length_encodings_offered_to_decoders")
-	c12skEdits     = core.RegCounter("c12.byzantine_secret_key_and_keypair_encodings")
-	c12reuse       = core.RegCounter("c12.transcript_objects_reused_across_verify_and_add")
-	c12rx          = core.RegCounter("c12.tuples_decoded_out_of_one_reused_receive_buffer")
-	c12recycled    = core.RegCounter("c12.tuples_also_decoded_into_receivers_used_before")
+	c12keyRoute     [6]int
+	c12keyGenErr    = core.RegCounter("c12.key_generation_with_injected_reader_error")
+	c12unclamped    = core.RegCounter("c12.ed25519_bytes_not_clamped_rejected")
+	c12srcBytes     = core.RegCounter("c12.transcript_from_bytes")
+	c12srcHash      = core.RegCounter("c12.transcript_from_hash")
+	c12srcXOF       = core.RegCounter("c12.transcript_from_xof")
+	c12xofErr       = core.RegCounter("c12.xof_read_error_surfaced_as_documented_panic")
+	c12hashTwin     = core.RegCounter("c12.caller_hash_compared_with_untouched_twin")
+	c12signs        = core.RegCounter("c12.signatures_compared_with_model")
+	c12signErr      = core.RegCounter("c12.sign_with_injected_reader_error")
+	c12verifyOK     = core.RegCounter("c12.honest_tuples_verified")
+	c12wire         = core.RegCounter("c12.wire_alterations")
+	c12alt          = map[string]int{}
+	c12decRej       = core.RegCounter("c12.altered_artifact_rejected_by_decoder")
+	c12verRej       = core.RegCounter("c12.altered_tuple_rejected_by_verify")
+	c12remarshal    = core.RegCounter("c12.accepted_artifacts_remarshalled")
+	c12batches      = core.RegCounter("c12.batches_verified")
+	c12batchEnt     = core.RegCounter("c12.batch_entries")
+	c12batchMixed   = core.RegCounter("c12.batches_mixing_valid_and_invalid")
+	c12batchBig     = core.RegCounter("c12.batches_with_95_or_more_entries")
+	c12grown        = core.RegCounter("c12.batches_grown_after_a_verdict_and_finished_again")
+	c12again        = core.RegCounter("c12.batches_finished_again_without_reset")
+	c12batchReset   = core.RegCounter("c12.batch_verifier_reused_after_reset")
+	c12batchEmpty   = core.RegCounter("c12.empty_batches")
+	c12batchOnly    = core.RegCounter("c12.verify_batch_only_calls")
+	c12batchPanic   = core.RegCounter("c12.batch_entropy_error_surfaced_as_documented_panic")
+	c12cancel       = core.RegCounter("c12.cancelling_pairs_in_batch")
+	c12kpUnchanged  = core.RegCounter("c12.keypair_marshal_unchanged_after_signing")
+	c12modelDec     = core.RegCounter("c12.model_verify_decisions_compared")
+	c12wrongLen     = core.RegCounter("c12.wrong_length_encodings_offered_to_decoders")
+	c12skEdits      = core.RegCounter("c12.byzantine_secret_key_and_keypair_encodings")
+	c12reuse        = core.RegCounter("c12.transcript_objects_reused_across_verify_and_add")
+	c12batchOneRecv = core.RegCounter("c12.batch_entries_added_from_one_reused_pair_of_receiver_objects")
+	c12rx           = core.RegCounter("c12.tuples_decoded_out_of_one_reused_receive_buffer")
+	c12recycled     = core.RegCounter("c12.tuples_also_decoded_into_receivers_used_before")
 )
 
 var c12altKinds = []string{"sig-bit", "marker-cleared", "s-plus-L", "R-negated", "R-top-bit", "R-swapped", "sig-truncated", "sig-extended", "other-context", "other-message", "other-key", "pk-bit", "pk-non-canonical", "s-plus-delta"}
@@ -867,6 +868,20 @@ func c12BatchHistory(r *core.Run, e *Env, pool []*c12Tuple) {
 	t := r.T
 	var bv *sr25519.BatchVerifier
 	nb := 1 + t.W(3)
+	// In half of the runs the verifier's caller decodes every entry into ONE Signature and ONE PublicKey
+	// object (UnmarshalBinary into receivers that held the previous entry) and hands those to Add: an entry
+	// is what Add was given at the time, not what the objects hold when the verdict is asked for.
+	oneRecv := t.W(2) == 1
+	var bSig sr25519.Signature
+	var bPK sr25519.PublicKey
+	add := func(bv *sr25519.BatchVerifier, tp *c12Tuple) {
+		if oneRecv && bSig.UnmarshalBinary(tp.sig) == nil && bPK.UnmarshalBinary(tp.pk) == nil {
+			r.Count(c12batchOneRecv)
+			bv.Add(&bPK, tp.src.transcript(t.W(2) == 1), &bSig)
+			return
+		}
+		bv.Add(tp.lpk, tp.src.transcript(t.W(2) == 1), tp.lsig)
+	}
 	for b := 0; b < nb && len(r.Main.Fails()) == 0; b++ {
 		switch sel := t.W(3); {
 		case sel == 0 || bv == nil:
@@ -890,7 +905,7 @@ func c12BatchHistory(r *core.Run, e *Env, pool []*c12Tuple) {
 		all := true
 		for i := 0; i < n; i++ {
 			tp := pool[t.W(len(pool))]
-			bv.Add(tp.lpk, tp.src.transcript(t.W(2) == 1), tp.lsig)
+			add(bv, tp)
 			want = append(want, tp.want)
 			all = all && tp.want
 			r.Count(c12batchEnt)
@@ -992,7 +1007,7 @@ func c12BatchHistory(r *core.Run, e *Env, pool []*c12Tuple) {
 		if n > 0 && n < 80 && t.W(4) == 0 && len(r.Main.Fails()) == 0 {
 			for k := 1 + t.W(3); k > 0; k-- {
 				tp := pool[t.W(len(pool))]
-				bv.Add(tp.lpk, tp.src.transcript(t.W(2) == 1), tp.lsig)
+				add(bv, tp)
 				want = append(want, tp.want)
 				all = all && tp.want
 				n++
